@@ -1269,3 +1269,22 @@ func objectNative(o *spec.Spec, env *Env, m map[string]any) reflect.Value {
 	}
 	return sv.Elem()
 }
+
+// Convert applies only the lenient conversions (and object defaulting / dispatch), without checking any declared
+// constraint. Used to obtain type-correct but possibly invalid model values.
+func Convert(s *spec.Spec, env *Env, raw any) (any, Verdict) {
+	return convert(s, env, raw, 0)
+}
+
+// ViolatedRules lists the properties whose own presence rule fails for the given presence set.
+func ViolatedRules(o *spec.Spec, present func(string) bool) []string {
+	var out []string
+	for i := range o.Props {
+		p := &o.Props[i]
+		single := &spec.Spec{Kind: spec.KObject, Props: []spec.Prop{*p}}
+		if !PresenceOK(single, present) {
+			out = append(out, p.Name)
+		}
+	}
+	return out
+}
